@@ -130,13 +130,16 @@ impl MoveGen {
 
         let mut len = 0;
 
+        // promotions already yielded for the destination in progress
+        let mut in_progress = NUM_PROMOTION_PIECES - self.promotions.len();
+
         for legals in &self.moves[self.index..] {
             if (legals.moves & self.mask).none() {
                 continue;
             }
             let count = (legals.moves & self.mask).count() as usize;
             len += if legals.promotion {
-                count * NUM_PROMOTION_PIECES
+                count * NUM_PROMOTION_PIECES - core::mem::take(&mut in_progress)
             } else {
                 count
             };
